@@ -243,7 +243,7 @@ func c12Op(g *gen.G, typ byte) drv.Op {
 			n := 1 + t.Int(3)
 			o := drv.Op{Kind: "filters"}
 			for i := 0; i < n; i++ {
-				o.Fs = append(o.Fs, ref.Filter{Name: g.Str(g.Len1()), Opts: byte(t.Int(3)) | byte(t.Int(3))<<4 | byte(t.Int(4))<<2})
+				o.Fs = append(o.Fs, ref.Filter{Name: g.Filter(), Opts: byte(t.Int(3)) | byte(t.Int(3))<<4 | byte(t.Int(4))<<2})
 			}
 			return o
 		default:
@@ -257,7 +257,7 @@ func c12Op(g *gen.G, typ byte) drv.Op {
 			n := 1 + t.Int(3)
 			o := drv.Op{Kind: "filters"}
 			for i := 0; i < n; i++ {
-				o.Fs = append(o.Fs, ref.Filter{Name: g.Str(g.Len1())})
+				o.Fs = append(o.Fs, ref.Filter{Name: g.Filter()})
 			}
 			return o
 		default:
